@@ -305,4 +305,8 @@ View == <<tab, contents, segs, fin, top, vcap, vlo>>
 HashId == [e \in Univ |-> e]
 HashColl == [e \in Univ |-> (e % 2) * 7 + 3]       \* heavy collisions: two hash values only
 HashSpread == [e \in Univ |-> e * 37 + 11]
+(* hash values that are critical if a table size were the square of a prime p (9, 25): p elements sit p slots apart and another
+   element starts on one of them with a secondary step that is a multiple of p - its probe sequence would never leave them *)
+HashSq9 == [e \in Univ |-> CASE e = 1 -> 9 [] e = 2 -> 3 [] e = 3 -> 6 [] e = 4 -> 72 [] e = 5 -> 12 [] OTHER -> 30]
+HashSq25 == [e \in Univ |-> CASE e = 1 -> 25 [] e = 2 -> 5 [] e = 3 -> 10 [] e = 4 -> 15 [] e = 5 -> 20 [] OTHER -> 50]
 =============================================================================
